@@ -28,6 +28,18 @@
 #include <mutex>
 #include <functional>
 #include <sstream>
+// (harnesses must not depend on what the rkcommon headers happen to include: a change to the
+// library's include lists must not turn into a harness build failure)
+#include <algorithm>
+#include <array>
+#include <atomic>
+#include <chrono>
+#include <cmath>
+#include <condition_variable>
+#include <limits>
+#include <memory>
+#include <thread>
+#include <utility>
 
 namespace vr {
 
